@@ -2,7 +2,7 @@
 from collections import defaultdict
 
 from .facts import short, clean_ty, ty_head, render, expr_root
-from .ordq import calls, calls_resolved, dominates, result_edges, edge_for, inner_switch, await_sites, upvar_of, all_paths_pass, switch_of_local
+from .ordq import calls, calls_resolved, dominates, edom, result_edges, edge_for, inner_switch, await_sites, upvar_of, all_paths_pass, switch_of_local
 from .proto import JQC
 from .rule import ok, bad, undecided
 from .rules_lw import FieldUse
@@ -74,7 +74,12 @@ def c07_signal(ctx):
         cors = [f for f in _children(ctx, root) if f.is_coroutine and calls(f, 'SchedulerFutureSignaller::signal')]
         key = short(root)
         if len(cors) != 1:
-            out.append(undecided('ORD-C07-signal', key, 'expected exactly one job coroutine that signals, found %d' % len(cors)))
+            # the job coroutine exists but does not signal at all?
+            jobc = [f for f in _children(ctx, root) if f.is_coroutine and any('SchedulerFutureSignaller' in clean_ty(u['ty']) for u in f.upvars)]
+            if len(cors) == 0 and jobc:
+                out.append(bad('ORD-C07-signal', key, 'the job owns the result signaller but never calls signal(): the awaiting task only ever sees Canceled', fn=jobc[0].name))
+            else:
+                out.append(undecided('ORD-C07-signal', key, 'expected exactly one job coroutine that signals, found %d' % len(cors)))
             continue
         f = cors[0]
         sig = calls(f, 'SchedulerFutureSignaller::signal')
@@ -86,7 +91,7 @@ def c07_signal(ctx):
         if not aw:
             out.append(bad('ORD-C07-signal', key, 'the job no longer awaits anything before signalling', fn=f.name))
             continue
-        if not all(a['ready'] is not None and dominates(f, a['ready'], sbb) for a in aw):
+        if not all(a['ready'] is not None and edom(f, a['ready'], sbb) for a in aw):
             out.append(bad('ORD-C07-signal', key, 'signal() is not dominated by the completion (Ready edge) of every await of the job: the result can be delivered before the operation finished', loc=f.loc(sbb), fn=f.name))
             continue
         # nothing user-visible after the signal: no further await / user call reachable from it
@@ -205,7 +210,7 @@ def c08(ctx):
                 out.append(bad(R, key, 'slot job must send queue-ready once, await task-finished once and signal once (found %d/%d/%d)' % (len(send), len(aw), len(sig)), fn=f.name))
             elif not dominates(f, send[0][0], aw[0]['poll_bb']):
                 out.append(bad(R, key, 'the slot job waits for task-finished before it has announced queue-ready: the SyncFuture never starts', fn=f.name))
-            elif not dominates(f, aw[0]['ready'], sig[0][0]):
+            elif not edom(f, aw[0]['ready'], sig[0][0]):
                 out.append(bad(R, key, 'the slot job signals completion before the user future has finished (signal not dominated by the end of the await): later operations start while the operation still runs', fn=f.name))
             elif not all_paths_pass(f, aw[0]['ready'], [sig[0][0]]):
                 out.append(bad(R, key, 'a cancelled SyncFuture (Err from the await) does not reach signal(): the queue is never released', fn=f.name))
@@ -218,18 +223,26 @@ def c08(ctx):
         user_calls = [s for s in g.sites.get(p.name, []) if s.kind == 'param']
         recv_polls = [(bb, t) for bb, t in calls(p, 'FutureExt::poll_unpin') if 'oneshot::Receiver' in clean_ty(t['args'][0]['pl']['ty'])]
         key = 'SyncFuture::poll|create-after-ready'
-        if len(user_calls) != 1 or len(recv_polls) != 1:
-            out.append(undecided(R, key, 'expected one call of the future-creating closure and one poll of the queue-ready receiver (found %d/%d)' % (len(user_calls), len(recv_polls))))
+        if len(user_calls) < 1 or len(recv_polls) != 1:
+            out.append(undecided(R, key, 'expected a call of the future-creating closure and one poll of the queue-ready receiver (found %d/%d)' % (len(user_calls), len(recv_polls))))
         else:
-            cbb = user_calls[0].bb
             rbb, rt = recv_polls[0]
+            # with several creation sites, every one of them must be on the Ready(Ok) edge: report the first that is not
+            cbb = user_calls[0].bb
+            e0 = result_edges(p, rbb)
+            r0 = edge_for(e0, POLL_ENUM, 'Ready') if e0 else None
+            i0 = inner_switch(p, rt['dest']['l'], 'Ready', r0) if r0 is not None else None
+            ok0 = edge_for(i0, RESULT, 'Ok') if i0 else None
+            for uc in user_calls:
+                if ok0 is not None and not edom(p, ok0, uc.bb):
+                    cbb = uc.bb
             e = result_edges(p, rbb)
             ready = edge_for(e, POLL_ENUM, 'Ready') if e else None
             inner = inner_switch(p, rt['dest']['l'], 'Ready', ready) if ready is not None else None
             okedge = edge_for(inner, RESULT, 'Ok') if inner else None
             if okedge is None:
                 out.append(undecided(R, key, 'shape of the match on the queue-ready receiver not recognised'))
-            elif dominates(p, okedge, cbb):
+            elif edom(p, okedge, cbb):
                 out.append(ok(R, key, 'the user future is created only on the Ready(Ok) edge of the queue-ready receiver', fn=p.name))
             else:
                 out.append(bad(R, key, 'the user future can be created before the queue has reached this operation\'s slot: it would run outside its exclusive slot', loc=p.loc(cbb), fn=p.name))
@@ -250,7 +263,7 @@ def c08(ctx):
             wf = ctx.F.adts['desync::scheduler::sync_future::SyncFutureState']
             dv = [v['discr'] for v in wf['variants'] if v['name'] == 'WaitingForFuture']
             tgt = arms.get(str(dv[0])) if dv else None
-            if tgt is not None and dominates(p, tgt, upolls[0].bb):
+            if tgt is not None and edom(p, tgt, upolls[0].bb):
                 out.append(ok(R, key, 'the user future is polled only in the WaitingForFuture arm', fn=p.name))
             else:
                 out.append(bad(R, key, 'the user future is polled outside the WaitingForFuture arm', fn=p.name))
@@ -274,7 +287,7 @@ def c08(ctx):
                     er = edge_for(i2, RESULT, 'Err') if i2 else None
                     if er is not None:
                         cancel_edges.append(er)
-            badt = [b for b in takes if not ((ready is not None and dominates(p, ready, b)) or any(dominates(p, c, b) for c in cancel_edges))]
+            badt = [b for b in takes if not ((ready is not None and edom(p, ready, b)) or any(edom(p, c, b) for c in cancel_edges))]
             if badt:
                 out.append(bad(R, key, 'task-finished can be sent while the user future has not completed (and the queue did not cancel): the queue moves on while the operation still runs', loc=p.loc(badt[0]), fn=p.name))
             else:
@@ -293,7 +306,7 @@ def c08(ctx):
                     sf_ready.append(r2)
         if not okaggs or not sf_ready:
             out.append(undecided(R, key, 'shape not recognised'))
-        elif all(any(dominates(p, r, b) for r in sf_ready) for b in okaggs):
+        elif all(any(edom(p, r, b) for r in sf_ready) for b in okaggs):
             out.append(ok(R, key, 'Ok(value) is produced only after the slot job has finished (scheduler future Ready)', fn=p.name))
         else:
             out.append(bad(R, key, 'the result is returned before the slot job has finished', fn=p.name))
@@ -438,7 +451,7 @@ def c03_dormant(ctx):
         badw = []
         for (bb, i) in writes:
             same = frozenset(l for l in H.before.get((bb, i), frozenset()) if H.guards[l] == 'thread.busy') & guards_fetch
-            if not dominates(body, none_edge, bb) or not same:
+            if not edom(body, none_edge, bb) or not same:
                 badw.append((bb, i))
         if badw:
             out.append(bad(R, key, 'busy is cleared outside the critical section that fetched (or not only on the nothing-to-run edge): a queue scheduled in between is seen by nobody', loc=body.loc(*badw[0]), fn=body.name))
@@ -517,7 +530,7 @@ def c04_steal(ctx):
         # every path from the wait's return back to the wait passes the claim, unless the job completed (loop exit)
         e = result_edges(sb, c)
         t_edge = e.get('otherwise') if e else None
-        if t_edge is None or not any(dominates(sb, t_edge, r[0]) for r in runs):
+        if t_edge is None or not any(edom(sb, t_edge, r[0]) for r in runs):
             out.append(bad(R, key, 'a successful claim does not lead to running the queue', fn=sb.name))
         elif not _claim_on_retry(sb, waits[0][1]['target'], w, c):
             out.append(bad(R, key, 'the caller can go back to waiting after a wake-up without trying to claim the queue: with no free pool thread nobody runs it', fn=sb.name))
@@ -632,7 +645,7 @@ def c10_spawn(ctx):
     t_edge = es.get('otherwise') if es else None
     if f_edge is None or t_edge is None:
         out.append(undecided(R, key, 'shape not recognised'))
-    elif dominates(st, f_edge, sp[0][0]) and dominates(st, t_edge, rec[0][0]):
+    elif edom(st, f_edge, sp[0][0]) and edom(st, t_edge, rec[0][0]):
         out.append(ok(R, key, 'no dormant thread -> try to spawn below the maximum -> on success retry', fn=st.name))
     else:
         out.append(bad(R, key, 'a queue that found no dormant thread does not (always) lead to a spawn attempt followed by a retry', fn=st.name))
@@ -691,7 +704,7 @@ def c17(ctx):
                     same_guard = frozenset(l for l in H.before.get((b2, len(blk['stmts'])), frozenset()) if H.guards[l] == 'SchedulerCore.threads') & frozenset(l for l in H.at_term.get(bb, frozenset()) if H.guards[l] == 'SchedulerCore.threads')
                     if lenside and maxside and strict and same_guard:
                         tr = tt['otherwise']
-                        if tr in dom.get(bb, set()):
+                        if edom(fn, tr, bb):
                             good = True
                     elif lenside and maxside and not strict:
                         good = 'nonstrict'
@@ -774,7 +787,7 @@ def c10_fetch(ctx):
                 nones.append(bb)
     if none_edge is None or not nones:
         out.append(undecided(R, key, 'shape not recognised'))
-    elif all(dominates(fn, none_edge, b) for b in nones):
+    elif all(edom(fn, none_edge, b) for b in nones):
         # and a queue that is not runnable leads back to another pop (loop), not out of the function
         pb = pops[0][0]
         some_edge = edge_for(e, OPTION, 'Some')
@@ -856,7 +869,7 @@ def c05_weak(ctx):
         e = result_edges(pp, ups[0][0])
         some = edge_for(e, OPTION, 'Some') if e else None
         none = edge_for(e, OPTION, 'None') if e else None
-        if some is not None and all(dominates(pp, some, bb) for bb, _ in fds):
+        if some is not None and all(edom(pp, some, bb) for bb, _ in fds):
             out.append(ok(R, key, 'the poll job is scheduled only on the Some edge of Weak::upgrade', fn=pp.name))
         else:
             out.append(bad(R, key, 'a poll job can be scheduled without a successful upgrade of the weak target', fn=pp.name))
@@ -864,7 +877,7 @@ def c05_weak(ctx):
         key = 'PipeContext::poll|dispose-when-dead'
         takes = [bb for bb, t in calls(pp, 'core::option::Option::take')]
         chute = [bb for bb, t in calls(pp, 'Desync::desync')]
-        if none is not None and any(dominates(pp, none, b) for b in takes) and any(dominates(pp, none, b) for b in chute):
+        if none is not None and any(edom(pp, none, b) for b in takes) and any(edom(pp, none, b) for b in chute):
             out.append(ok(R, key, 'when the target is gone the poll function is taken out and dropped on the disposal queue', fn=pp.name))
         else:
             out.append(bad(R, key, 'when the target is gone the poll function (stream + closure) is not released', fn=pp.name))
@@ -919,7 +932,7 @@ def c11(ctx):
                     if s['k'] == 'assign' and s['pl']['p'] and not b['cleanup']:
                         ev = k.expr_of_rvalue(s['rv'])
                         if ev[0] == 'agg' and ev[2].endswith('Option::None') and 'PipeContext.poll_fn' in (ctx.held(k).held_before(bb, 0) | ctx.held(k).held_at_term(bb)):
-                            if a['ready'] is not None and dominates(k, a['ready'], bb):
+                            if a['ready'] is not None and edom(k, a['ready'], bb):
                                 okc = True
     if okc:
         out.append(ok(R, key, 'when the poll function reports it is finished, it is dropped (poll_fn = None)', fn=pp.name))
@@ -949,7 +962,7 @@ def c11(ctx):
         return out
     pb = procs[0].bb
     problems = []
-    if not dominates(k, some, pb):
+    if not edom(k, some, pb):
         problems.append('the processing function is called outside the Ready(Some(item)) edge')
     if not dominates(k, pb, aw[0]['poll_bb']):
         problems.append('the processing future is awaited before it was created')
@@ -1027,9 +1040,9 @@ def c12(ctx):
     if some is None or none is None:
         out.append(undecided(R, key, 'match on the stream poll not recognised'))
         return out
-    if not dominates(k, some, procs[0].bb):
+    if not edom(k, some, procs[0].bb):
         problems.append('processing outside the Ready(Some) edge')
-    if not dominates(k, aw[0]['ready'], pushes[0]):
+    if not edom(k, aw[0]['ready'], pushes[0]):
         problems.append('the output is pushed before the processing future completed')
     if not k.must_pass(some, {polls[0].bb}, {pushes[0]}):
         problems.append('an input item can be consumed without producing an output')
@@ -1044,7 +1057,7 @@ def c12(ctx):
     # closed = true only on Ready(None)
     key = 'pipe|closed-at-end'
     cl = [(bb, i) for (bb, i, v) in u.assigns.get('closed', [])]
-    if len(cl) == 1 and dominates(k, none, cl[0][0]):
+    if len(cl) == 1 and edom(k, none, cl[0][0]):
         out.append(ok(R, key, 'the producer sets closed only when the input returned Ready(None)', fn=k.name))
     else:
         out.append(bad(R, key, 'the producer marks the stream closed %s' % ('%d times' % len(cl) if len(cl) != 1 else 'on an edge other than end-of-input'), fn=k.name))
@@ -1081,7 +1094,7 @@ def c12(ctx):
                             closed_true = t['otherwise']
             if none_e is None or not ends or closed_true is None:
                 out.append(undecided(R, key, 'shape not recognised'))
-            elif all(dominates(pn, none_e, b) and dominates(pn, closed_true, b) for b in ends):
+            elif all(edom(pn, none_e, b) and edom(pn, closed_true, b) for b in ends):
                 out.append(ok(R, key, 'the stream ends only when nothing is buffered and the core is closed', fn=pn.name))
             else:
                 out.append(bad(R, key, 'the consumer can be told the stream ended while outputs are still buffered or the input is still open', fn=pn.name))
